@@ -26,7 +26,7 @@ RULE = ("real HasTraits classes for the four prefix styles (same name, explicit 
         "object of every forwarder are compared with the Lean model; corpus: the witness histories of the Lean "
         "refutations (F18-F20), the `del`-raises-after-deleting branches, chains of 99 / 100 / 101 levels (the "
         "100-step recursion limit); quick: 2000 histories for each of the 8 style x kind shapes + 500 for each of 8 "
-        "chain shapes, 5 subclass shapes and 3 comparison-mode shapes + 150 for each of 3 malformed shapes and the one-character wildcard prefix 'p*', thorough: 6250 / 3000 / 1000; a case is non-trivial when "
+        "chain shapes, 5 subclass shapes and 3 comparison-mode shapes + 150 for each of 3 malformed shapes and the one-character wildcard prefix 'p*', thorough: 6250 / 3000 / 1000; + 150 'rejected write, then the prototype changes' histories (custom / k-th-op-fails / real Range validators) and 75 'original value' histories (target traits that store the assigned object while validate returns another one, every assigned value fresh) for each of the prototype shapes; COPY operations inside the random histories (`cp A p`: pickle round trip of the whole pool, `cp <o> c`: copy.copy of one object that nobody defers to; the history continues on the copies, which get the same handlers; validators accept stored values during the restore); a case is non-trivial when "
         "some operation changed a value or the forwarder table, raised, or produced an event; distinct = distinct "
         "case line")
 TRUSTED = [
@@ -47,6 +47,9 @@ ASSUMPTIONS = [
     "the delegate graph stays acyclic (reading through a cycle raises RecursionError since fix ec4908f of finding "
     "F21 — before, it killed the interpreter — and is probed in a subprocess); operations that would close a "
     "cycle are skipped on both sides",
+    "copies are made through __reduce_ex__ / __setstate__ only (pickle, copy.copy); clone_traits / deepcopy go through "
+    "clone_traits, which materialises the value read through every linked PrototypedFrom attribute as a LOCAL value "
+    "of the copy (the copy no longer follows the prototype) — not modelled, reported",
     "attribute names are identifiers (no ':' '*' '.', not ending in '_'); one delegate reference attribute `d` per class",
     "objects are kept alive for the whole history (weak references of the listener machinery never die)",
 ]
@@ -118,6 +121,10 @@ def generate(rng, tier):
     for shape in D.P_SHAPES:
         for _ in range(n_odd):
             yield D.rejected_history(rng, shape)
+    for shape in D.P_SHAPES:
+        if shape not in D.CMP_SHAPES:
+            for _ in range(n_odd // 2):
+                yield D.original_value_history(rng, shape)
 
 
 def nontrivial(case, out):
@@ -393,8 +400,41 @@ def run_impl(case):
             k = op[0]
             tags.add(k)
             w.env.op_index = idx
-            if op[1] >= len(w.objs) or (k == "sw" and op[2] is not None and op[2] >= len(w.objs)):
+            if (op[1] is not None and op[1] >= len(w.objs)) or (k == "sw" and op[2] is not None and op[2] >= len(w.objs)):
                 return "bad-case", [], ["bad-case"]
+            if k == "cp":
+                # the history continues on a copy made through __reduce_ex__ / __setstate__.  copy.copy of an
+                # object that another object defers to would leave that other object on the original: skipped
+                # on both sides (like a swap that would close a cycle)
+                if op[1] is not None and any(t == op[1] for j, t in deleg.items() if j != op[1]):
+                    outs.append("skip")
+                    tags.add("skip-copy-of-a-delegate")
+                    continue
+                del w.events[:], w.oevents[:], excs[:]
+                try:
+                    w.copy_op(op[1], op[2])
+                    res = "ok"
+                except Exception as e:
+                    res = "err " + D.exc_name(e)
+                    # a saved local value of a deferring attribute is re-assigned through setattr_delegate: with
+                    # an incomplete chain below it (delegate None) the state cannot be restored
+                    stuck = [(o_, a_.name) for o_ in ([op[1]] if op[1] is not None else range(len(w.objs)))
+                             for a_ in w.spec(o_).attrs if a_.kind in ("D", "P") and w.local(o_, a_.name)
+                             and orc.chain(o_, a_)[1][0] in ("none", "deep")]
+                    orc.hit("copy-raises:" + ("local-value-without-delegate" if stuck else op[2]), "",
+                            "pickle round trip / copy.copy raised %s" % D.exc_name(e), cells=str(stuck))
+                del w.events[:], w.oevents[:], excs[:]          # only behaviour AFTER the copy is observed
+                after = w.snapshot()
+                tags.add("cp-%s" % op[2])
+                if any((o_, n_) in orc.local for o_ in ([op[1]] if op[1] is not None else range(len(w.objs)))
+                       for n_ in [a_.name for a_ in w.spec(o_).attrs]):
+                    tags.add("branch:copy-with-broken-link")
+                if after != before:
+                    orc.hit("copy-changes-values:" + op[2], "", "the copy reads other values than the original",
+                            cells=str(sorted(c for c in after if after[c] != before.get(c))))
+                outs.append("%s E[] X0 S[%s] F[%s]" % (res, D.show_snapshot(w, after), D.show_forwarders(w)))
+                before = after
+                continue
             if k == "sw" and op[2] is not None and D.would_cycle(deleg, op[1], op[2]):
                 outs.append("skip")
                 tags.add("skip-cycle")
